@@ -121,3 +121,9 @@ contract(F, 'compute_counts_per_sample_stats', tier='A', props=['C19'],
         "all(any(table._sample_ids[k] == key for k in range(0, __i0)) for key in sample_counts)",
         "len(sample_counts) == __i0",
     ])})
+
+# the default metadata policy of merge (C09): the receiver's entry wins, the other one fills in
+contract(F, 'prefer_self', tier='P', props=['C09'],
+    types={'x': 'Val', 'y': 'Val'}, returns='Val',
+    ensures=["implies(not isnone(x), result == x)", "implies(isnone(x), result == y)"],
+    modifies=[])
